@@ -701,25 +701,25 @@ func (o *Float) BinaryOp(op token.Token, rhs Object) (Object, error) {
 		switch op {
 		case token.Add:
 			r := o.Value + rhs.Value
-			if r == o.Value {
+			if r == o.Value && math.Signbit(r) == math.Signbit(o.Value) {
 				return o, nil
 			}
 			return &Float{Value: r}, nil
 		case token.Sub:
 			r := o.Value - rhs.Value
-			if r == o.Value {
+			if r == o.Value && math.Signbit(r) == math.Signbit(o.Value) {
 				return o, nil
 			}
 			return &Float{Value: r}, nil
 		case token.Mul:
 			r := o.Value * rhs.Value
-			if r == o.Value {
+			if r == o.Value && math.Signbit(r) == math.Signbit(o.Value) {
 				return o, nil
 			}
 			return &Float{Value: r}, nil
 		case token.Quo:
 			r := o.Value / rhs.Value
-			if r == o.Value {
+			if r == o.Value && math.Signbit(r) == math.Signbit(o.Value) {
 				return o, nil
 			}
 			return &Float{Value: r}, nil
@@ -748,25 +748,25 @@ func (o *Float) BinaryOp(op token.Token, rhs Object) (Object, error) {
 		switch op {
 		case token.Add:
 			r := o.Value + float64(rhs.Value)
-			if r == o.Value {
+			if r == o.Value && math.Signbit(r) == math.Signbit(o.Value) {
 				return o, nil
 			}
 			return &Float{Value: r}, nil
 		case token.Sub:
 			r := o.Value - float64(rhs.Value)
-			if r == o.Value {
+			if r == o.Value && math.Signbit(r) == math.Signbit(o.Value) {
 				return o, nil
 			}
 			return &Float{Value: r}, nil
 		case token.Mul:
 			r := o.Value * float64(rhs.Value)
-			if r == o.Value {
+			if r == o.Value && math.Signbit(r) == math.Signbit(o.Value) {
 				return o, nil
 			}
 			return &Float{Value: r}, nil
 		case token.Quo:
 			r := o.Value / float64(rhs.Value)
-			if r == o.Value {
+			if r == o.Value && math.Signbit(r) == math.Signbit(o.Value) {
 				return o, nil
 			}
 			return &Float{Value: r}, nil
